@@ -439,6 +439,7 @@ class NameInj:
         else:
             raise LostAnchor(f"{self.file}::{self.name}::get_name: unsupported body shape (S9 supports format!(..) and a literal)")
         nm = self.name
+        self.template = lit
         spec_args = ", ".join("arg(" + a + ")" for a in args)
         exec_args = ", ".join("fa(&(" + a + "))" for a in args)
         L = lambda t, tag=None: Line(t, "unit", self.unit, self.uline, "get_name_" + nm, tag)
@@ -643,6 +644,18 @@ def generate(path, outdir):
                 logs.extend(it.log)
             else:
                 logs.append(it.log)
+    # C08: two DIFFERENT operations must not share a name template (checked on the literal text; formatting is assumed injective in template and arguments).
+    # Equal templates produce an obligation nobody can discharge, reported like any failed obligation.
+    ninj = [it for it in items if isinstance(it, NameInj) and getattr(it, "template", None) is not None]
+    for a in range(len(ninj)):
+        for b in range(a + 1, len(ninj)):
+            if ninj[a].template == ninj[b].template:
+                fnm = f"name_templates_distinct_{ninj[a].name}_{ninj[b].name}"
+                tag = "C08 two-different-operations-never-share-a-name-template"
+                lines.append(Line(f"pub proof fn {fnm}()", "unit", ninj[b].unit, ninj[b].uline, fnm))
+                lines.append(Line(f"    ensures false, //# {tag}", "unit", ninj[b].unit, ninj[b].uline, fnm, tag))
+                lines.append(Line("{ } // both operations format " + ninj[a].template[:60].replace("\n", " "), "unit", ninj[b].unit, ninj[b].uline, fnm))
+                logs.append(dict(file=ninj[b].file, fn=fnm, impl=None, lines=[0, 0], kind="lemma", rewrites={}))
     lines.append(Line("} // verus!", "gen", "", 0))
     lines.append(Line("fn main() {}", "gen", "", 0))
     os.makedirs(outdir, exist_ok=True)
